@@ -330,6 +330,30 @@ def replayable_rule(ctx, rid):
     return rr
 
 
+def fresh_settings_rule(ctx, rid):
+    """The settings record is read from disk in every call of load_info: the
+    crop may have been re-sown (by this object or by another process) since
+    the last read, and reaping replays the enumeration and labels the results
+    from exactly this record."""
+    rr = ctx.rule(rid, "Crop.load_info reads the settings file on every call (no memoised copy survives a re-sow)", floor=1)
+    f = ctx.prog.need_cls(CROP + ".Crop").methods.get("load_info")
+    need(f is not None, "anchor lost: Crop.load_info")
+    g = build_cfg(f.node)
+    ctx.touch(f, g)
+    reads = [n for n, c, nm in all_calls(ctx, f, g) if nm == CROP + ".read_from_disk"]
+    need(reads, "anchor lost: load_info does not read the settings file")
+    rets = [n for n in g.nodes if n.kind == "stmt" and isinstance(n.ast, ast.Return) and n.ast.value is not None]
+    need(rets, "anchor lost: load_info returns nothing")
+    avoid = g.reachable(blocked_nodes=[r.id for r in reads])
+    stale = [r for r in rets if r.id in avoid and r.id not in {x.id for x in reads}]
+    if stale:
+        rr.bad(ctx.finding(rid, f, stale[0].ast, "load_info can return `%s` without reading the settings file in this call: after a re-sow (or a sow by another process) the reap replays and labels with the previous sow's cases, constants and farmer" % norm(stale[0].ast.value),
+                           construct="settings-memoised"), "fresh settings")
+    else:
+        rr.ok("every return of load_info is preceded by read_from_disk(settings file) in the same call")
+    return rr
+
+
 def run(ctx):
     persist_replay_rule(ctx, "C04.R1")
     sequential_rule(ctx, "C04.R2")
@@ -340,6 +364,7 @@ def run(ctx):
     shared.naming_rule(ctx, "C04.R5")
     picklelib_rule(ctx, "C04.R6")
     replayable_rule(ctx, "C04.R7")
+    fresh_settings_rule(ctx, "C04.R9")
     from . import c11
     c11.publication_rule(ctx, "C04.R8", title="crop files (settings, function, batches, results) are published by write-temporary, close, rename: no process ever loads a partly written file")
     prog = ctx.prog
